@@ -18,6 +18,11 @@ Theorem C06_kernel_eq : forall c f m, accepts c f m = accepts_spec c f m.
 Proof. exact accepts_shape. Qed.
 Print Assumptions C06_kernel_eq.
 
+(* Molecule.has_valid_span (asked by Fragment.__eq__): true exactly when both ends are set; 0 is a coordinate *)
+Theorem C06_kernel_span : forall s e, g_mol_span_ok s e = s && e.
+Proof. exact mol_span_shape. Qed.
+Print Assumptions C06_kernel_span.
+
 (* Fragment.umi_eq: equal -> True; distance 0 -> False; lengths differ -> False; hamming <= distance *)
 Theorem C06_kernel_umi : forall d a b,
   umi_eq d a b = (if zs_eqb a b then true else if d =? 0 then false
